@@ -24,6 +24,12 @@ Both produce the same RAW event format (list of dicts, absolute paths):
 
 `canonicalise` projects a raw trace on the alphabet of coq/Model/Durable.v (projection rules in its
 docstring).  The mutation switches exist only for the oracle's sensitivity self-test.
+
+Fault injection (InProcessTracer(fault={"index": k[, "kind": "short_write"]})): the k-th durability call of
+the run (temp creation, write, descriptor opened for an fsync, fsync, rename -- lock files excluded) raises
+OSError(EIO) instead of being executed, or, for a write with kind short_write, transfers only half of the
+bytes and returns that count.  Every durability call is listed in .faultlog, so a fault-free probe run
+enumerates the fault points of a scenario.
 """
 from __future__ import annotations
 
@@ -70,7 +76,7 @@ class InProcessTracer:
         self.fault = fault
         self.faultlog: List[Dict[str, Any]] = []
 
-    def durability_call(self, call: str, module: str, path: Any, isdir: bool = False) -> None:
+    def durability_call(self, call: str, module: str, path: Any, isdir: bool = False) -> Optional[str]:
         """Called BEFORE a call that a publish sequence depends on (temp creation, write, descriptor for
         fsync, fsync, rename).  Raises the injected fault when this is the chosen call."""
         if module == "file_lock":
@@ -84,8 +90,14 @@ class InProcessTracer:
         if self.fault is not None and self.fault.get("index") == i:
             import errno
             self.faultlog[-1]["injected"] = True
+            if self.fault.get("kind") == "short_write" and call == "write":
+                # POSIX short write: write(2) transfers fewer bytes than asked and says so in its return value
+                self.faultlog[-1]["call"] = "short-write"
+                self.emit(op="mark", label=f"fault:{i}:short-write:{rel}")
+                return "short"
             self.emit(op="mark", label=f"fault:{i}:{call}:{rel}")
             raise OSError(errno.EIO, f"injected fault at durability call #{i} ({call} {rel})")
+        return None
 
     # -- recording
     def _abs(self, p: Any) -> str:
@@ -157,7 +169,8 @@ class _OsProxy:
         return fd
 
     def write(self, fd: int, data: Any) -> int:
-        self._t.durability_call("write", self._m, self._t.fds.get(fd, str(fd)))
+        if self._t.durability_call("write", self._m, self._t.fds.get(fd, str(fd))) == "short" and len(data) > 1:
+            data = bytes(data)[: len(data) // 2]
         n = os.write(fd, data)
         p = self._t.fds.get(fd)
         if p is None:
